@@ -50,6 +50,28 @@ func Judge(prop string, p *sdl.Program, cfg map[string]string, runs []*Obs) []Vi
 		})
 	case "C08":
 		perRun(func(o *Obs) []Violation { return w.CheckNarrowing(out, o) })
+	case "C04":
+		perRun(func(o *Obs) []Violation {
+			return append(CheckRegistryTrace(o.Reg), w.CheckContinuation(out, o)...)
+		})
+	case "C05":
+		perRun(func(o *Obs) []Violation {
+			if !faultFree(o) {
+				return nil
+			}
+			return w.CheckLifecycle(out, o)
+		})
+	case "C09":
+		perRun(func(o *Obs) []Violation { return w.CheckCleanFailure(out, o) })
+	case "C12":
+		perRun(func(o *Obs) []Violation {
+			if !faultFree(o) {
+				return nil
+			}
+			return w.CheckOrdering(o)
+		})
+	case "C13":
+		perRun(func(o *Obs) []Violation { return w.CheckRunners(o) })
 	case "C10":
 		var ff []*Obs
 		var idx []int
